@@ -71,8 +71,27 @@ fn scenario(ctx: &Ctx, idx: u64) -> Report {
         cfg.id = Some(id);
         cfg.read_only = rng.gen_bool(0.5);
         cfg.nodes = contacts;
+        net.set_send_yield(*[0.0, 0.0, 0.3, 1.0].choose(&mut rng).unwrap());
         let dht = spawn_node(&net, &cfg);
         report.evaluations += 1;
+
+        // Some early searches are issued in the very tick a datagram reaches the node (e.g. the
+        // first replies of the bootstrap), so that the API call and the network event race.
+        let aligned: std::sync::Arc<std::sync::Mutex<Vec<tokio::task::JoinHandle<SearchResult>>>> = Default::default();
+        if rng.gen_bool(0.5) {
+            let (dht3, net3, aligned3) = (dht.clone(), net.clone(), aligned.clone());
+            let mut orng = ChaCha8Rng::seed_from_u64(seed ^ 0xa11);
+            let mut left = 3;
+            net.add_observer(addr, move |_w| {
+                if left > 0 && orng.gen_bool(0.2) {
+                    left -= 1;
+                    let (dht4, net4) = (dht3.clone(), net3.clone());
+                    aligned3.lock().unwrap().push(tokio::spawn(async move {
+                        run_search(&net4, &dht4, target, false, Duration::from_secs(1500)).await
+                    }));
+                }
+            });
+        }
 
         // ---- early searches, issued at chosen instants relative to start
         let n_early = rng.gen_range(1..=10);
@@ -138,6 +157,15 @@ fn scenario(ctx: &Ctx, idx: u64) -> Report {
         let mut results: Vec<(Micros, bool, SearchResult)> = Vec::new();
         for (at, announce, h) in handles {
             results.push((at, announce, h.await.unwrap_or_default()));
+        }
+        let aligned_handles: Vec<_> = std::mem::take(&mut *aligned.lock().unwrap());
+        for h in aligned_handles {
+            if let Ok(r) = h.await {
+                if r.started < t_boot {
+                    report.count("early_searches_aligned_with_a_delivery");
+                }
+                results.push((r.started.max(1), false, r));
+            }
         }
         settle().await;
         for (at, announce, r) in &results {
